@@ -62,6 +62,7 @@ func (c c4Case) base() string {
 var c4RotPairs = [][]string{
 	{"example.com/x/codec.T", "example.com/y/codec.T"}, {"example.com/y/codec.T", "example.com/x/codec.T"},
 	{"github.com/foo/bar.T", "github.com/other/bar.T"}, {"example.com/b/util.X", "example.com/a/util.X"},
+	{"corp/x/codec.T", "team/y/codec.T"}, {"kit/log.T", "corp/platform/log.T"},
 }
 
 var c4Refs = []string{"errors.New", "unicode/utf8.RuneError", "math/bits.Len", "sort.Strings", "unicode.IsSpace", "strconv.Itoa"}
